@@ -134,6 +134,8 @@ func OpenWriter
     flags assumed
     assigns fPath, fsExists, fsDirty
     ensures err == nil ==> w != nil && fresh(w) && iwOK(w) && fPath[w.f] == path
+    // the writer appends at the end of the file with a scratch buffer of one item
+    ensures err == nil ==> w.pos == fSize[w.f] && w.pos >= 0 && len(w.buff) == opts.Size() && w.opts == opts && fresh(region(w.buff))
     ensures err != nil ==> w == nil
     ensures forall g *os.File :: !fresh(g) ==> fPath[g] == old(fPath[g])
     ensures forall p string :: p != path ==> fsExists[p] == old(fsExists[p]) && fsDirty[p] == old(fsDirty[p])
@@ -150,25 +152,69 @@ func (*Writer).Write
     ensures[sync_frame] forall p string :: p != fPath[w.f] ==> fsDirty[p] == old(fsDirty[p])
 
 func (*Writer).writeBase
-    flags noframe only_sync
+    flags noframe only_sync only_layout
     requires[sync_ok] iwOK(w)
-    assigns fsDirty, Writer.pos
+    requires[layout_ok] w.f != nil && len(w.buff) == 16 && w.pos == fSize[w.f] && w.pos >= 0
+    assigns fsDirty, fsContent, fData, fSize, Writer.pos, elems(w.buff)
     ensures[sync_frame] forall p string :: p != fPath[w.f] ==> fsDirty[p] == old(fsDirty[p])
+    // C13/C11: one item = 16 bytes appended at the end of the file, every field an 8-byte big-endian word
+    ensures[layout_item]   err == nil ==> fSize[w.f] == old(fSize[w.f]) + 16 && w.pos == fSize[w.f] && w64(fData[w.f], old(w.pos) + 0) == u64(it.Offset) && w64(fData[w.f], old(w.pos) + 8) == u64(it.Position)
+    ensures[layout_prefix] forall i :: 0 <= i && i < old(w.pos) ==> fData[w.f][i] == old(fData[w.f][i])
+    ensures[layout_words]  forall q :: 0 <= q && q + 8 <= old(w.pos) ==> w64(fData[w.f], q) == w64(old(fData)[w.f], q)
+    ensures[layout_bytes]  len(w.buff) == 16 && w.f == old(w.f)
+    ensures[layout_others] forall g *os.File :: g != w.f ==> fData[g] == old(fData[g]) && fSize[g] == old(fSize[g])
+    assert[layout_h0] sb64(w.buff, 0) == u64(it.Offset) at return 2
+    assert[layout_h8] sb64(w.buff, 8) == u64(it.Position) at return 2
+    assert[layout_hfile] forall i :: old(w.pos) <= i && i < old(w.pos) + 16 ==> fData[w.f][i] == abs(w.buff, base(w.buff) + i - old(w.pos)) at return 2
 func (*Writer).writeTimes
-    flags noframe only_sync
+    flags noframe only_sync only_layout
     requires[sync_ok] iwOK(w)
-    assigns fsDirty, Writer.pos
+    requires[layout_ok] w.f != nil && len(w.buff) == 24 && w.pos == fSize[w.f] && w.pos >= 0
+    assigns fsDirty, fsContent, fData, fSize, Writer.pos, elems(w.buff)
     ensures[sync_frame] forall p string :: p != fPath[w.f] ==> fsDirty[p] == old(fsDirty[p])
+    // C13/C11: one item = 24 bytes appended at the end of the file, every field an 8-byte big-endian word
+    ensures[layout_item]   err == nil ==> fSize[w.f] == old(fSize[w.f]) + 24 && w.pos == fSize[w.f] && w64(fData[w.f], old(w.pos) + 0) == u64(it.Offset) && w64(fData[w.f], old(w.pos) + 8) == u64(it.Position) && w64(fData[w.f], old(w.pos) + 16) == u64(it.Timestamp)
+    ensures[layout_prefix] forall i :: 0 <= i && i < old(w.pos) ==> fData[w.f][i] == old(fData[w.f][i])
+    ensures[layout_words]  forall q :: 0 <= q && q + 8 <= old(w.pos) ==> w64(fData[w.f], q) == w64(old(fData)[w.f], q)
+    ensures[layout_bytes]  len(w.buff) == 24 && w.f == old(w.f)
+    ensures[layout_others] forall g *os.File :: g != w.f ==> fData[g] == old(fData[g]) && fSize[g] == old(fSize[g])
+    assert[layout_h0] sb64(w.buff, 0) == u64(it.Offset) at return 2
+    assert[layout_h8] sb64(w.buff, 8) == u64(it.Position) at return 2
+    assert[layout_h16] sb64(w.buff, 16) == u64(it.Timestamp) at return 2
+    assert[layout_hfile] forall i :: old(w.pos) <= i && i < old(w.pos) + 24 ==> fData[w.f][i] == abs(w.buff, base(w.buff) + i - old(w.pos)) at return 2
 func (*Writer).writeKeys
-    flags noframe only_sync
+    flags noframe only_sync only_layout
     requires[sync_ok] iwOK(w)
-    assigns fsDirty, Writer.pos
+    requires[layout_ok] w.f != nil && len(w.buff) == 24 && w.pos == fSize[w.f] && w.pos >= 0
+    assigns fsDirty, fsContent, fData, fSize, Writer.pos, elems(w.buff)
     ensures[sync_frame] forall p string :: p != fPath[w.f] ==> fsDirty[p] == old(fsDirty[p])
+    // C13/C11: one item = 24 bytes appended at the end of the file, every field an 8-byte big-endian word
+    ensures[layout_item]   err == nil ==> fSize[w.f] == old(fSize[w.f]) + 24 && w.pos == fSize[w.f] && w64(fData[w.f], old(w.pos) + 0) == u64(it.Offset) && w64(fData[w.f], old(w.pos) + 8) == u64(it.Position) && w64(fData[w.f], old(w.pos) + 16) == it.KeyHash
+    ensures[layout_prefix] forall i :: 0 <= i && i < old(w.pos) ==> fData[w.f][i] == old(fData[w.f][i])
+    ensures[layout_words]  forall q :: 0 <= q && q + 8 <= old(w.pos) ==> w64(fData[w.f], q) == w64(old(fData)[w.f], q)
+    ensures[layout_bytes]  len(w.buff) == 24 && w.f == old(w.f)
+    ensures[layout_others] forall g *os.File :: g != w.f ==> fData[g] == old(fData[g]) && fSize[g] == old(fSize[g])
+    assert[layout_h0] sb64(w.buff, 0) == u64(it.Offset) at return 2
+    assert[layout_h8] sb64(w.buff, 8) == u64(it.Position) at return 2
+    assert[layout_h16] sb64(w.buff, 16) == it.KeyHash at return 2
+    assert[layout_hfile] forall i :: old(w.pos) <= i && i < old(w.pos) + 24 ==> fData[w.f][i] == abs(w.buff, base(w.buff) + i - old(w.pos)) at return 2
 func (*Writer).writeFull
-    flags noframe only_sync
+    flags noframe only_sync only_layout
     requires[sync_ok] iwOK(w)
-    assigns fsDirty, Writer.pos
+    requires[layout_ok] w.f != nil && len(w.buff) == 32 && w.pos == fSize[w.f] && w.pos >= 0
+    assigns fsDirty, fsContent, fData, fSize, Writer.pos, elems(w.buff)
     ensures[sync_frame] forall p string :: p != fPath[w.f] ==> fsDirty[p] == old(fsDirty[p])
+    // C13/C11: one item = 32 bytes appended at the end of the file, every field an 8-byte big-endian word
+    ensures[layout_item]   err == nil ==> fSize[w.f] == old(fSize[w.f]) + 32 && w.pos == fSize[w.f] && w64(fData[w.f], old(w.pos) + 0) == u64(it.Offset) && w64(fData[w.f], old(w.pos) + 8) == u64(it.Position) && w64(fData[w.f], old(w.pos) + 16) == u64(it.Timestamp) && w64(fData[w.f], old(w.pos) + 24) == it.KeyHash
+    ensures[layout_prefix] forall i :: 0 <= i && i < old(w.pos) ==> fData[w.f][i] == old(fData[w.f][i])
+    ensures[layout_words]  forall q :: 0 <= q && q + 8 <= old(w.pos) ==> w64(fData[w.f], q) == w64(old(fData)[w.f], q)
+    ensures[layout_bytes]  len(w.buff) == 32 && w.f == old(w.f)
+    ensures[layout_others] forall g *os.File :: g != w.f ==> fData[g] == old(fData[g]) && fSize[g] == old(fSize[g])
+    assert[layout_h0] sb64(w.buff, 0) == u64(it.Offset) at return 2
+    assert[layout_h8] sb64(w.buff, 8) == u64(it.Position) at return 2
+    assert[layout_h16] sb64(w.buff, 16) == u64(it.Timestamp) at return 2
+    assert[layout_h24] sb64(w.buff, 24) == it.KeyHash at return 2
+    assert[layout_hfile] forall i :: old(w.pos) <= i && i < old(w.pos) + 32 ==> fData[w.f][i] == abs(w.buff, base(w.buff) + i - old(w.pos)) at return 2
 
 func (*Writer).Sync
     flags noframe
@@ -188,20 +234,76 @@ func (*Writer).SyncAndClose
     ensures[sync_clean] err == nil ==> !fsDirty[fPath[w.f]]
     ensures[sync_frame] forall p string :: p != fPath[w.f] ==> fsDirty[p] == old(fsDirty[p])
 
+// the 8-byte big-endian word at byte p of b, as an (axiomatised) function so that quantified facts can name it
+spec w64(b map[int]int, p int) int
+    ensures result == be64(b, p)
+
+// the documented item layouts at byte p of b: 8-byte big-endian words offset, position[, timestamp][, key hash]
+pred itemBaseAt(b map[int]int, p int, it Item) := w64(b, p) == u64(it.Offset) && w64(b, p + 8) == u64(it.Position)
+pred itemTimesAt(b map[int]int, p int, it Item) := itemBaseAt(b, p, it) && w64(b, p + 16) == u64(it.Timestamp)
+pred itemKeysAt(b map[int]int, p int, it Item) := itemBaseAt(b, p, it) && w64(b, p + 16) == it.KeyHash
+pred itemFullAt(b map[int]int, p int, it Item) := itemBaseAt(b, p, it) && w64(b, p + 16) == u64(it.Timestamp) && w64(b, p + 24) == it.KeyHash
+
+// the same layouts inside a byte slice (what Read decodes from)
+pred itemBaseIn(s []byte, p int, it Item) := sb64(s, p) == u64(it.Offset) && sb64(s, p + 8) == u64(it.Position)
+pred itemTimesIn(s []byte, p int, it Item) := itemBaseIn(s, p, it) && sb64(s, p + 16) == u64(it.Timestamp)
+pred itemKeysIn(s []byte, p int, it Item) := itemBaseIn(s, p, it) && sb64(s, p + 16) == it.KeyHash
+pred itemFullIn(s []byte, p int, it Item) := itemBaseIn(s, p, it) && sb64(s, p + 16) == u64(it.Timestamp) && sb64(s, p + 24) == it.KeyHash
+
+// reads a complete index file. Decided here: the decoding of the item bytes (everything after the header,
+// as read into `data`) into items, per layout; opening, sizing and reading the file are I/O.
+func Read
+    flags noframe only_layout
+    assert[layout_full]  opts.Times && opts.Keys ==> (forall j :: 0 <= j && j < len(items) ==> itemFullIn(data, j * 32, items[j])) at return 10
+    assert[layout_times] opts.Times && !opts.Keys ==> (forall j :: 0 <= j && j < len(items) ==> itemTimesIn(data, j * 24, items[j])) at return 10
+    assert[layout_keys]  !opts.Times && opts.Keys ==> (forall j :: 0 <= j && j < len(items) ==> itemKeysIn(data, j * 24, items[j])) at return 10
+    assert[layout_base]  !opts.Times && !opts.Keys ==> (forall j :: 0 <= j && j < len(items) ==> itemBaseIn(data, j * 16, items[j])) at return 10
+    // every complete item of the data is decoded, none invented
+    assert[layout_count1] itemSize == opts.Size() && len(data) == dataSize at return 10
+    assert[layout_count2] len(items) == dataSize / itemSize at return 10
+    assert[layout_count3] dataSize >= 0 ==> dataSize % itemSize == 0 at return 10
+    loop 1
+      invariant[layout_state] opts.Times && opts.Keys && itemSize == 32 && -1 <= rangeindex && rangeindex < len(items)
+      invariant[layout_done]  forall j :: 0 <= j && j <= rangeindex ==> itemFullIn(data, j * 32, items[j])
+    loop 2
+      invariant[layout_state] opts.Times && !opts.Keys && itemSize == 24 && -1 <= rangeindex && rangeindex < len(items)
+      invariant[layout_done]  forall j :: 0 <= j && j <= rangeindex ==> itemTimesIn(data, j * 24, items[j])
+    loop 3
+      invariant[layout_state] !opts.Times && opts.Keys && itemSize == 24 && -1 <= rangeindex && rangeindex < len(items)
+      invariant[layout_done]  forall j :: 0 <= j && j <= rangeindex ==> itemKeysIn(data, j * 24, items[j])
+    loop 4
+      invariant[layout_state] !opts.Times && !opts.Keys && itemSize == 16 && -1 <= rangeindex && rangeindex < len(items)
+      invariant[layout_done]  forall j :: 0 <= j && j <= rangeindex ==> itemBaseIn(data, j * 16, items[j])
+
 // writes a complete index file and makes it durable before returning
 func Write
-    flags noframe only_sync
-    assigns fPath, fsExists, fsDirty, Writer.pos
+    flags noframe only_sync only_layout
+    assigns fPath, fsExists, fsDirty, fsContent, fData, fSize, Writer.pos
+    // C13/C11/C10: the items are laid out back to back at the end of the file, in order, in the layout
+    // selected by the index parameters (checked where the file is closed)
+    assert[layout_full]  opts.Times && opts.Keys ==> (forall k :: 0 <= k && k < len(index) ==> itemFullAt(fData[w.f], w.pos - (len(index) - k) * 32, index[k])) at call (*Writer).SyncAndClose 1
+    assert[layout_times] opts.Times && !opts.Keys ==> (forall k :: 0 <= k && k < len(index) ==> itemTimesAt(fData[w.f], w.pos - (len(index) - k) * 24, index[k])) at call (*Writer).SyncAndClose 1
+    assert[layout_keys]  !opts.Times && opts.Keys ==> (forall k :: 0 <= k && k < len(index) ==> itemKeysAt(fData[w.f], w.pos - (len(index) - k) * 24, index[k])) at call (*Writer).SyncAndClose 1
+    assert[layout_base]  !opts.Times && !opts.Keys ==> (forall k :: 0 <= k && k < len(index) ==> itemBaseAt(fData[w.f], w.pos - (len(index) - k) * 16, index[k])) at call (*Writer).SyncAndClose 1
+    assert[layout_end]   w.pos == fSize[w.f] at call (*Writer).SyncAndClose 1
     ensures[sync_clean] retErr == nil ==> !fsDirty[path]
     ensures[sync_handles] forall g *os.File :: !fresh(g) ==> fPath[g] == old(fPath[g])
     ensures[sync_frame] forall p string :: p != path ==> fsDirty[p] == old(fsDirty[p]) && fsExists[p] == old(fsExists[p])
     loop 1
+      invariant[layout_state] opts.Times && opts.Keys && w != nil && w.f != nil && len(w.buff) == 32 && w.pos == fSize[w.f] && w.pos >= (rangeindex + 1) * 32 && -1 <= rangeindex && rangeindex < len(index)
+      invariant[layout_done]  forall k :: 0 <= k && k <= rangeindex ==> itemFullAt(fData[w.f], w.pos - (rangeindex + 1 - k) * 32, index[k])
       invariant[sync] iwOK(w) && fPath[w.f] == path && (forall p string :: p != path ==> fsDirty[p] == old(fsDirty[p]) && fsExists[p] == old(fsExists[p])) && (forall g *os.File :: !fresh(g) ==> fPath[g] == old(fPath[g]))
     loop 2
+      invariant[layout_state] opts.Times && !opts.Keys && w != nil && w.f != nil && len(w.buff) == 24 && w.pos == fSize[w.f] && w.pos >= (rangeindex + 1) * 24 && -1 <= rangeindex && rangeindex < len(index)
+      invariant[layout_done]  forall k :: 0 <= k && k <= rangeindex ==> itemTimesAt(fData[w.f], w.pos - (rangeindex + 1 - k) * 24, index[k])
       invariant[sync] iwOK(w) && fPath[w.f] == path && (forall p string :: p != path ==> fsDirty[p] == old(fsDirty[p]) && fsExists[p] == old(fsExists[p])) && (forall g *os.File :: !fresh(g) ==> fPath[g] == old(fPath[g]))
     loop 3
+      invariant[layout_state] !opts.Times && opts.Keys && w != nil && w.f != nil && len(w.buff) == 24 && w.pos == fSize[w.f] && w.pos >= (rangeindex + 1) * 24 && -1 <= rangeindex && rangeindex < len(index)
+      invariant[layout_done]  forall k :: 0 <= k && k <= rangeindex ==> itemKeysAt(fData[w.f], w.pos - (rangeindex + 1 - k) * 24, index[k])
       invariant[sync] iwOK(w) && fPath[w.f] == path && (forall p string :: p != path ==> fsDirty[p] == old(fsDirty[p]) && fsExists[p] == old(fsExists[p])) && (forall g *os.File :: !fresh(g) ==> fPath[g] == old(fPath[g]))
     loop 4
+      invariant[layout_state] !opts.Times && !opts.Keys && w != nil && w.f != nil && len(w.buff) == 16 && w.pos == fSize[w.f] && w.pos >= (rangeindex + 1) * 16 && -1 <= rangeindex && rangeindex < len(index)
+      invariant[layout_done]  forall k :: 0 <= k && k <= rangeindex ==> itemBaseAt(fData[w.f], w.pos - (rangeindex + 1 - k) * 16, index[k])
       invariant[sync] iwOK(w) && fPath[w.f] == path && (forall p string :: p != path ==> fsDirty[p] == old(fsDirty[p]) && fsExists[p] == old(fsExists[p])) && (forall g *os.File :: !fresh(g) ==> fPath[g] == old(fPath[g]))
 
 @*/
